@@ -75,6 +75,14 @@ Theorem C18_abs_flat :
      squash_sizes (length top) (map (@length sentry) files)).
 Proof. exact abs_flat_thm. Qed.
 
+(** merge_in (indexes of concurrent operations): the own entries keep their positions,
+    entries are only appended, the index stays well-formed, and every commit of the other
+    index is indexed afterwards. *)
+Theorem C18_merge_in : forall st other st', merge_in st other = Some st' -> wf (flat_graph st) ->
+  wf (flat_graph st') /\ (exists more, flat st' = flat st ++ more) /\
+  (forall e, In e other -> commit_id_to_pos st' (fst e) <> None).
+Proof. exact merge_thm. Qed.
+
 (** maybe_squash_with_ancestors on segment sizes: no commit is lost, the newest written
     segment has fewer than half the commits of the one below it, and an observed transaction
     that the size model reproduces satisfies the checker's statement. *)
